@@ -193,10 +193,11 @@ def schema_digest(schema):
             return {k: default_digest(x) for k, x in dv.items()}
         if hasattr(dv, "value"):
             d = {"raw": dv.value}
-            # whatever else the object that holds a default says about it (its position, ...)
+            # whatever else the object that holds a default says about it -- except where in which
+            # document it was written, which differs between two ways of writing one schema
             names = getattr(type(dv), "__slots__", None) or sorted(getattr(dv, "__dict__", {}))
             for n in names:
-                if n != "value" and not n.startswith("_"):
+                if n not in ("value", "position") and not n.startswith("_"):
                     d[n] = repr(getattr(dv, n, None))
             return d
         return repr(dv)
